@@ -209,7 +209,11 @@ pub fn eval(e: &syn::Expr, env: &Env) -> String {
             if let Expr::Path(p) = &*c.func {
                 if p.path.segments.len() == 2 && args.len() == 1 {
                     let ty = p.path.segments[0].ident.to_string();
-                    if env.enums.get(&ty) == Some(&true) {
+                    // a value of an anonymous inline CHOICE is rendered under the ASN.1 keyword (`CHOICE::alt(v)`): the name is wrong
+                    // Rust (C01's business), the abstract value is that of the alternative
+                    let alt = p.path.segments[1].ident.to_string();
+                    let constructor_like = ["new", "from", "try_from", "from_str", "const_new", "parse"].contains(&alt.as_str());
+                    if env.enums.get(&ty) == Some(&true) || ty == "CHOICE" || (!env.enums.contains_key(&ty) && !constructor_like && ty.starts_with(|ch: char| ch.is_ascii_uppercase())) {
                         return format!("( choice {} {} )", hex(&p.path.segments[1].ident.to_string()), eval(args[0], env));
                     }
                 }
@@ -482,7 +486,256 @@ pub fn gen_cases(cfg: &RunCfg) -> Vec<Case> {
             kind: "value-reference-default",
         });
     }
+    gen_composite(cfg, &mut cases);
     cases
+}
+
+
+// ---- composite values: generated types (nested, through references, with DEFAULTs) and values of them --------------
+
+#[derive(Clone, Debug)]
+enum CTy {
+    Int,
+    Bool,
+    Null,
+    Oct,
+    Str,
+    Seq(bool, Vec<(String, CTy, Option<CVal>)>), // is_set, members: name, type, DEFAULT
+    SeqOf(Box<CTy>),
+    Choice(Vec<(String, CTy)>),
+    Named(String, Box<CTy>),
+}
+#[derive(Clone, Debug)]
+enum CVal {
+    Int(i128),
+    Bool(bool),
+    Null,
+    Oct(Vec<u8>),
+    Str(String),
+    Braces(Vec<(Option<String>, CVal)>),
+    Choice(String, Box<CVal>),
+}
+
+impl CTy {
+    /// notation of the type where it is used (a named type is used by its name)
+    fn text(&self) -> String {
+        match self {
+            CTy::Int => "INTEGER".into(),
+            CTy::Bool => "BOOLEAN".into(),
+            CTy::Null => "NULL".into(),
+            CTy::Oct => "OCTET STRING".into(),
+            CTy::Str => "UTF8String".into(),
+            CTy::Seq(set, ms) => format!(
+                "{} {{ {} }}",
+                if *set { "SET" } else { "SEQUENCE" },
+                ms.iter().map(|(n, t, d)| format!("{n} {}{}", t.text(), d.as_ref().map(|v| format!(" DEFAULT {}", v.text())).unwrap_or_default())).collect::<Vec<_>>().join(", ")
+            ),
+            CTy::SeqOf(e) => format!("SEQUENCE OF {}", e.text()),
+            CTy::Choice(alts) => format!("CHOICE {{ {} }}", alts.iter().map(|(n, t)| format!("{n} {}", t.text())).collect::<Vec<_>>().join(", ")),
+            CTy::Named(n, _) => n.clone(),
+        }
+    }
+    /// the type as the Lean model reads it
+    fn sx(&self) -> String {
+        match self {
+            CTy::Int | CTy::Bool | CTy::Null | CTy::Oct | CTy::Str => "leaf".into(),
+            CTy::Seq(_, ms) => format!(
+                "( seq {} )",
+                sx_list(ms.iter().map(|(n, t, d)| format!("( {} {} {} )", hex(n), t.sx(), d.as_ref().map(|v| format!("( some {} )", v.sx())).unwrap_or("none".into()))))
+            ),
+            CTy::SeqOf(e) => format!("( seqof {} )", e.sx()),
+            CTy::Choice(alts) => format!("( choice {} )", sx_list(alts.iter().map(|(n, t)| format!("( {} {} )", hex(n), t.sx())))),
+            CTy::Named(n, t) => format!("( named {} {} )", hex(n), t.sx()),
+        }
+    }
+    fn core(&self) -> &CTy {
+        match self {
+            CTy::Named(_, t) => t.core(),
+            t => t,
+        }
+    }
+    /// does a value of this type contain a braces group at all (everything else is leaf territory)
+    fn composite(&self) -> bool {
+        !matches!(self.core(), CTy::Int | CTy::Bool | CTy::Null | CTy::Oct | CTy::Str)
+    }
+}
+
+impl CVal {
+    fn text(&self) -> String {
+        match self {
+            CVal::Int(n) => n.to_string(),
+            CVal::Bool(b) => if *b { "TRUE".into() } else { "FALSE".into() },
+            CVal::Null => "NULL".into(),
+            CVal::Oct(o) => format!("'{}'H", o.iter().map(|b| format!("{b:02X}")).collect::<String>()),
+            CVal::Str(s) => format!("\"{}\"", esc(s)),
+            CVal::Braces(fs) => {
+                if fs.is_empty() {
+                    "{}".into()
+                } else {
+                    format!("{{ {} }}", fs.iter().map(|(n, v)| match n { Some(n) => format!("{n} {}", v.text()), None => v.text() }).collect::<Vec<_>>().join(", "))
+                }
+            }
+            CVal::Choice(a, v) => format!("{a} : {}", v.text()),
+        }
+    }
+    /// the notation as the Lean model of the linker reads it
+    fn sx(&self) -> String {
+        match self {
+            CVal::Int(n) => format!("( atom ( int {n} ) )"),
+            CVal::Bool(b) => format!("( atom ( bool {} ) )", sx_bool(*b)),
+            CVal::Null => "( atom null )".into(),
+            CVal::Oct(o) => format!("( atom ( octets {} ) )", sx_list(o.iter().map(|b| b.to_string()))),
+            CVal::Str(s) => format!("( atom ( str {} ) )", hex(s)),
+            CVal::Braces(fs) => format!("( braces {} )", sx_list(fs.iter().map(|(n, v)| format!("( {} {} )", n.as_ref().map(|n| hex(n)).unwrap_or("none".into()), v.sx())))),
+            CVal::Choice(a, v) => format!("( choice {} {} )", hex(a), v.sx()),
+        }
+    }
+}
+
+/// the reference reading, computed from the description alone: one entry per component in declaration
+/// order (the given value, else the DEFAULT), elements in order, the named alternative
+fn spec_of(ty: &CTy, v: &CVal) -> String {
+    match (ty.core(), v) {
+        (_, CVal::Int(n)) => format!("( int {n} )"),
+        (_, CVal::Bool(b)) => format!("( bool {} )", sx_bool(*b)),
+        (_, CVal::Null) => "null".into(),
+        (_, CVal::Oct(o)) => format!("( hstr {} octet )", hex(&o.iter().map(|b| format!("{b:02X}")).collect::<String>())),
+        (_, CVal::Str(s)) => format!("( cstring {} )", hex(s)),
+        (CTy::Seq(_, ms), CVal::Braces(fs)) => format!(
+            "( record {} )",
+            sx_list(ms.iter().map(|(n, t, d)| match fs.iter().find(|(fnm, _)| fnm.as_deref() == Some(n.as_str())) {
+                Some((_, fv)) => spec_of(t, fv),
+                None => d.as_ref().map(|dv| spec_of(t, dv)).unwrap_or("( unknown x6d697373696e67 )".into()),
+            }))
+        ),
+        (CTy::SeqOf(e), CVal::Braces(fs)) => format!("( list {} )", sx_list(fs.iter().map(|(_, fv)| spec_of(e, fv)))),
+        (CTy::Choice(alts), CVal::Choice(a, iv)) => match alts.iter().find(|(n, _)| n == a) {
+            Some((_, t)) => format!("( choice {} {} )", hex(a), spec_of(t, iv)),
+            None => "( unknown x616c74 )".into(),
+        },
+        _ => "( unknown x6d69736d61746368 )".into(),
+    }
+}
+
+fn gen_cty(rng: &mut Rng, depth: usize, named: &[CTy], names: &mut usize) -> CTy {
+    let leaf = |rng: &mut Rng| [CTy::Int, CTy::Bool, CTy::Null, CTy::Oct, CTy::Str, CTy::Int][rng.below(6)].clone();
+    if depth == 0 {
+        if !named.is_empty() && rng.chance(1, 3) {
+            return rng.pick(named).clone();
+        }
+        return leaf(rng);
+    }
+    match rng.below(8) {
+        0 | 1 | 2 => {
+            let n = 1 + rng.below(4);
+            let set = rng.chance(1, 5);
+            let mut ms = Vec::new();
+            for _ in 0..n {
+                *names += 1;
+                let name = format!("m{}", *names);
+                let t = gen_cty(rng, depth - 1, named, names);
+                let d = if rng.chance(2, 5) { Some(gen_cval(rng, &t, true)) } else { None };
+                ms.push((name, t, d));
+            }
+            CTy::Seq(set, ms)
+        }
+        3 | 4 => CTy::SeqOf(Box::new(gen_cty(rng, depth - 1, named, names))),
+        5 => {
+            let n = 1 + rng.below(3);
+            let mut alts = Vec::new();
+            for _ in 0..n {
+                *names += 1;
+                alts.push((format!("c{}", *names), gen_cty(rng, depth - 1, named, names)));
+            }
+            CTy::Choice(alts)
+        }
+        6 if !named.is_empty() => rng.pick(named).clone(),
+        _ => leaf(rng),
+    }
+}
+
+/// a value of the type: required components always, components with a DEFAULT half of the time, in declaration order
+fn gen_cval(rng: &mut Rng, ty: &CTy, small: bool) -> CVal {
+    match ty.core() {
+        CTy::Int => CVal::Int(if small { rng.range(-9, 300) as i128 } else { *rng.pick(&[0i128, -1, 7, 255, 256, -129, 65536, 1 << 40, -(1 << 70), i64::MAX as i128 + 1]) }),
+        CTy::Bool => CVal::Bool(rng.chance(1, 2)),
+        CTy::Null => CVal::Null,
+        CTy::Oct => CVal::Oct((0..rng.below(4)).map(|_| rng.below(256) as u8).collect()),
+        CTy::Str => CVal::Str(gen_string(rng, false)),
+        CTy::Seq(_, ms) => CVal::Braces(ms.iter().filter_map(|(n, t, d)| if d.is_none() || rng.chance(1, 2) { Some((Some(n.clone()), gen_cval(rng, t, small))) } else { None }).collect()),
+        CTy::SeqOf(e) => CVal::Braces((0..rng.below(4)).map(|_| (None, gen_cval(rng, e, small))).collect()),
+        CTy::Choice(alts) => {
+            let (a, t) = rng.pick(alts);
+            CVal::Choice(a.clone(), Box::new(gen_cval(rng, t, small)))
+        }
+        CTy::Named(..) => unreachable!(),
+    }
+}
+
+/// does the notation contain a group spelled like an object identifier value (`{ a 1 }`, `{ a 1, b 2 }` are not: only
+/// `{ ident number }` pairs without commas are; a one-member struct value with a number is exactly that)
+fn has_oid_spelling(ty: &CTy, v: &CVal) -> bool {
+    match (ty.core(), v) {
+        (CTy::Seq(_, ms), CVal::Braces(fs)) => {
+            (fs.len() == 1 && matches!(fs[0].1, CVal::Int(n) if n >= 0))
+                || fs.iter().any(|(n, fv)| ms.iter().find(|(mn, _, _)| Some(mn) == n.as_ref()).map(|(_, t, _)| has_oid_spelling(t, fv)).unwrap_or(false))
+                || ms.iter().any(|(_, t, d)| d.as_ref().map(|dv| has_oid_spelling(t, dv)).unwrap_or(false))
+        }
+        (CTy::SeqOf(e), CVal::Braces(fs)) => fs.iter().any(|(_, fv)| has_oid_spelling(e, fv)),
+        (CTy::Choice(alts), CVal::Choice(a, iv)) => alts.iter().find(|(n, _)| n == a).map(|(_, t)| has_oid_spelling(t, iv)).unwrap_or(false),
+        _ => false,
+    }
+}
+
+pub const LINK_SEP: &str = " @@ ";
+
+fn gen_composite(cfg: &RunCfg, cases: &mut Vec<Case>) {
+    let mut rng = Rng::new(cfg.seed ^ 0xC07C0);
+    let n = cfg.budget(120, 2500);
+    let mut names = 0usize;
+    for k in 0..n {
+        // one to three named types, each may use the earlier ones; the governing type is the last one or a list of it
+        let mut named: Vec<CTy> = Vec::new();
+        let mut defs = Vec::new();
+        let count = 1 + rng.below(3);
+        for j in 0..count {
+            let depth = 1 + rng.below(2);
+            let mut t = gen_cty(&mut rng, depth, &named, &mut names);
+            if !t.composite() || matches!(t, CTy::Named(..)) {
+                names += 1;
+                t = CTy::Seq(false, vec![(format!("m{names}"), t, None), (format!("n{names}"), CTy::Bool, None)]);
+            }
+            let name = format!("Cq{k}x{j}");
+            defs.push(format!("{name} ::= {}", t.text()));
+            named.push(CTy::Named(name, Box::new(t)));
+        }
+        let last = named.last().unwrap().clone();
+        let gov = match rng.below(6) {
+            0 => CTy::SeqOf(Box::new(last)),
+            1 if named.len() > 1 => named[0].clone(),
+            _ => last,
+        };
+        let v = gen_cval(&mut rng, &gov, false);
+        let kind = match gov.core() {
+            CTy::Seq(..) => "composite:struct",
+            CTy::SeqOf(..) => "composite:list",
+            CTy::Choice(..) => "composite:choice",
+            _ => "composite:leaf",
+        };
+        let kind = if has_oid_spelling(&gov, &v) { "composite:with-a-group-spelled-like-an-object-identifier" } else { kind };
+        let src = format!("{}{LINK_SEP}{}{LINK_SEP}{}", spec_of(&gov, &v), gov.sx(), v.sx());
+        let as_default = k % 3 == 2;
+        if as_default {
+            cases.push(Case {
+                asn: format!("{}\nCd{k} ::= SEQUENCE {{ f {} DEFAULT {} }}", defs.join("\n"), gov.text(), v.text()),
+                site: Site::DefaultFn(format!("cd{k}_f_default")),
+                src,
+                kind,
+            });
+        } else {
+            cases.push(Case { asn: format!("{}\ncv{k} {} ::= {}", defs.join("\n"), gov.text(), v.text()), site: Site::Const(format!("CV{k}")), src, kind });
+        }
+    }
 }
 
 fn collect_consts(m: &ModuleFacts, generated: &str) -> (BTreeMap<String, syn::Expr>, BTreeMap<String, bool>, BTreeMap<String, syn::Expr>) {
@@ -541,6 +794,8 @@ pub fn run(cfg: &RunCfg) -> Report {
     };
     let mut reqs = Vec::new();
     let mut meta = Vec::new();
+    let mut link_reqs = Vec::new();
+    let mut link_meta: Vec<(usize, String)> = Vec::new();
     for (idx, outcome) in batch_compile(cases.len(), 100, &render, &rcfg) {
         match outcome {
             Outcome::Ok { generated, warnings } => {
@@ -567,12 +822,20 @@ pub fn run(cfg: &RunCfg) -> Report {
                             rep.distinct.insert(c.asn.clone());
                             rep.count(&format!("kind:{}", c.kind));
                             rep.count(match c.site { Site::Const(_) => "site:value-assignment", Site::DefaultFn(_) => "site:DEFAULT" });
-                            reqs.push(format!("c07 {} {}", c.src, v));
+                            let mut parts = c.src.split(LINK_SEP);
+                            let spec_src = parts.next().unwrap_or("");
+                            if let (Some(ty), Some(val)) = (parts.next(), parts.next()) {
+                                link_reqs.push(format!("c07link {ty} {val} {v}"));
+                                link_meta.push((i, v.clone()));
+                            }
+                            reqs.push(format!("c07 {spec_src} {v}"));
                             meta.push((i, v));
                         }
                         None => {
                             let key = match &c.site { Site::Const(n) => n.to_lowercase(), Site::DefaultFn(n) => n.split('_').next().unwrap_or("").to_uppercase() };
-                            if warnings.iter().any(|w| w.to_lowercase().contains(&key.to_lowercase()) || w.contains("currently unsupported") || w.contains("Time value")) {
+                            // composite values: the generator's and the linker's refusals do not name the definition (C10 matches them by count)
+                            let anonymous_refusal = c.kind.starts_with("composite") && warnings.iter().any(|w| w.contains("A type name is needed") || w.contains("LinkerError") || w.contains("unlinked"));
+                            if anonymous_refusal || warnings.iter().any(|w| w.to_lowercase().contains(&key.to_lowercase()) || w.contains("currently unsupported") || w.contains("Time value")) {
                                 rep.count(&format!("not-judged:dropped-with-warning:{}", c.kind));
                             } else {
                                 rep.count(&format!("unobserved:{}", c.kind));
@@ -632,6 +895,21 @@ pub fn run(cfg: &RunCfg) -> Report {
                 }
             }
         }
+    }
+    // the model of the linker on the composite cases: what it links = what the implementation's initialiser denotes
+    match run_driver(&link_reqs) {
+        Ok(ans) => {
+            for (a, (i, v)) in ans.iter().zip(link_meta.iter()) {
+                let c = &cases[*i];
+                rep.count(&format!("link-model:{}", a.split(':').next().unwrap_or(a)));
+                if a == "bad-request" {
+                    rep.harness_errors.push(format!("bad c07link request for {}: {}", c.asn, c.src));
+                } else if a != "model=agree" {
+                    rep.disagree(json!({"case": {"asn1": c.asn, "src": c.src, "observed": v, "kind": c.kind}, "model": a, "model_of": "Link.Values.link (link_with_type / link_struct_like / link_array_like)"}));
+                }
+            }
+        }
+        Err(e) => rep.harness_errors.push(e),
     }
     let answers = match run_driver(&reqs) {
         Ok(a) => a,
